@@ -11,7 +11,7 @@ import MiniMoka.Lemmas.SyncAdmit
 namespace MiniMoka
 namespace Props
 
-open Sync Sync.Admit
+open Sync Sync.Admit Sync.Nodes
 open Unsync.Admit (shortestPre shortestPre_eq_some_iff shortestPre_eq_none_iff)
 
 /-- Every state the one thread can reach satisfies the invariant the theorems below assume
@@ -212,6 +212,151 @@ example : Spec.oracleC13 .sync (some 4) none none cfg.weigh
     = false := by
   decide +kernel
 
+/-! ## C12 on the concurrent cache: victims are the LRU prefix, recency is order of use -/
+
+/-- Every state the one thread can reach satisfies the invariant of the recency theorems
+(`RInv`: `AInv`, an info belongs to one key, a dirty entry has its insert queued). -/
+theorem C12_sync_reachable (p : Params) (hq : Sync.NoQuirks p) (hsm : SmallSketch p) (h : List Op) :
+    RInv p (Sync.stateAfter p {} h) := by
+  have : ∀ (h : List Op) (s : SState), RInv p s → RInv p (Sync.stateAfter p s h) := by
+    intro h
+    induction h with
+    | nil => intro s hs; exact hs
+    | cons op rest ih =>
+      intro s hs
+      have h1 := rawStep_rinv hq hsm hs op
+      have e : (Sync.step p s op).1 = (rawStep p s op).1 := step_fst p s op hs.ainv.top.nofault
+      show RInv p (Sync.stateAfter p (Sync.step p s op).1 rest)
+      rw [e]
+      exact ih _ h1
+  exact this h {} (init_rinv p)
+
+/-- **C12, recency is order of use, state level.**  `N` is the access order at the last
+quiescent point, `mv` the at most one key used since (`insert`, or a `get` that returned a
+value), `SI`/`Pend` the segment invariant that every operation of the one thread maintains
+(`C12_sync_segment`).  Whenever both queues are empty again and every node belongs to the
+map's entry of its key, the access order is: the keys of `N` that are still resident and were
+not used, in their old relative order, then the used key if it is still resident. -/
+theorem C12_sync_recency_state {p : Params} {s : SState} (hr : RInv p s) {N : List AoNode}
+    {mv : List Nat} {u : Option Nat} {d : Bool} (hN : (N.map (·.key)).Nodup)
+    (h : SI N mv u d s) (hp : Pend d u s) (hrq : s.readQ = []) (hwq : s.writeQ = [])
+    (hcur : AllCur s s.prob) :
+    s.prob.map (·.key) =
+      (N.map (·.key)).filter (fun k => (s.prob.map (·.key)).contains k && !mv.contains k) ++
+        mv.filter ((s.prob.map (·.key)).contains ·) :=
+  final_order hr.ainv.top.nodes.toNodesCore hr.key.prob hN h hp hrq hwq hcur
+
+/-- The segment invariant (as the recency walk carries it: `WInv st s`, `st` the oracle's
+bookkeeping) is kept by maintenance (`sync`), by `invalidate`, `invalidate_all`, clock steps
+and lookups that miss; an `insert k` and a `get k` that returns a value register the use of
+`k` (`useSt`). -/
+theorem C12_sync_segment {p : Params} (hq : Sync.NoQuirks p) {st : Spec.RecSt} {s : SState}
+    (hr : RInv p s) (h : WInv st s) (k v d : Nat) :
+    WInv st (syncRun p s) ∧ WInv st (Sync.invalidate p s k) ∧ WInv st (Sync.invalidateAll s) ∧
+    WInv st { s with now := s.now + d } ∧ WInv (useSt st k) (Sync.insert p s k v) ∧
+    ((Sync.get p s k).2 = none → WInv st (Sync.get p s k).1) ∧
+    (∀ v', (Sync.get p s k).2 = some v' → WInv (useSt st k) (Sync.get p s k).1) :=
+  ⟨h.sync hq hr.ainv.top, h.inv hq hr.ainv k, h.of_eq rfl rfl rfl rfl rfl,
+   h.of_eq rfl rfl rfl rfl rfl, h.ins hq hr k v, (h.getOp hq hr k).1, (h.getOp hq hr k).2⟩
+
+/-- A hit in a quiescent state followed by a maintenance run that ends quiescent: the key goes
+to the most recently used end, the other survivors keep their relative order. -/
+theorem C12_sync_hit_order {p : Params} (hq : Sync.NoQuirks p) (hsm : SmallSketch p) {s : SState}
+    (hr : RInv p s) (hqs : Spec.quiescent (Sync.snapshot p s) = true) (k v : Nat)
+    (hv : (Sync.get p s k).2 = some v)
+    (hqs' : Spec.quiescent (Sync.snapshot p (syncRun p (Sync.get p s k).1)) = true) :
+    Spec.lruOrder (Sync.snapshot p (syncRun p (Sync.get p s k).1)) =
+      Spec.expectedOrder (Sync.snapshot p s) (Sync.snapshot p (syncRun p (Sync.get p s k).1)) [k] :=
+  get_sync_order hq hsm hr hqs k v hv hqs'
+
+/-- An insert (of a new key, or an update) in a quiescent state followed by a maintenance run
+that ends quiescent: the key, if it is resident, is at the most recently used end, the other
+survivors keep their relative order — whatever was evicted for it. -/
+theorem C12_sync_insert_order {p : Params} (hq : Sync.NoQuirks p) (hsm : SmallSketch p)
+    {s : SState} (hr : RInv p s) (hqs : Spec.quiescent (Sync.snapshot p s) = true) (k v : Nat)
+    (hqs' : Spec.quiescent (Sync.snapshot p (syncRun p (Sync.insert p s k v))) = true) :
+    Spec.lruOrder (Sync.snapshot p (syncRun p (Sync.insert p s k v))) =
+      Spec.expectedOrder (Sync.snapshot p s) (Sync.snapshot p (syncRun p (Sync.insert p s k v))) [k] :=
+  insert_sync_order hq hsm hr hqs k v hqs'
+
+/-- **C12, "recency is order of use", on traces, concurrent cache.**  For every configuration
+of the current code and every history of one thread, the recency walk accepts the model's
+trace: between two quiescent snapshots (both queues empty, every node current) with at most
+one use in between (an `insert`, a `get` that returned a value) — and any number of `sync`,
+`invalidate`, `invalidate_all`, clock steps, misses, `contains_key`, iterations — the access
+order is that of the earlier snapshot restricted to the keys still resident and not used,
+followed by the used key if it is still resident. -/
+theorem C12_sync_recency (p : Params) (hq : Sync.NoQuirks p) (hsm : SmallSketch p) (h : List Op) :
+    Spec.recencyC12 .sync (Sync.trace p h) = true :=
+  recencyC12_trace hq hsm h
+
+/-- **C12 on traces, concurrent cache.**  The C12 oracle accepts every trace of the model: the
+recency walk (`C12_sync_recency`; with no `max_capacity` this is the whole oracle) and, with a
+capacity, the admission windows of C13, in which the residents that leave for size are the
+shortest sufficient prefix of the access order. -/
+theorem C12_sync_oracle (p : Params) (hq : Sync.NoQuirks p) (hsm : SmallSketch p) (h : List Op) :
+    Spec.oracleC12 .sync p.cap p.ttl p.tti p.weigh Gen.UNSYNC_EVICTION_BATCH_SIZE
+      (Sync.trace p h) = true :=
+  oracleC12_trace hq hsm _ h
+
+/-! ### non-vacuity (C12) -/
+
+namespace C13SyncEx
+
+/-- A history with quiescent snapshots around: a hit on the LRU key, an update, an
+invalidation with a clock step and a miss, lookups that miss, an insert that fits, an admission
+with two victims, `invalidate_all`. -/
+def histR : List Op :=
+  [.ins 1 1, .sync, .ins 2 1, .sync, .ins 3 1, .sync, .snap,
+   .get 1, .sync, .snap,
+   .ins 2 1, .sync, .snap,
+   .inv 3, .adv 5, .get 9, .sync, .snap,
+   .get 7, .get 7, .get 7, .sync, .snap,
+   .ins 4 2, .sync, .snap,
+   .ins 7 2, .sync, .snap,
+   .adv 1, .invAll, .sync, .snap]
+
+end C13SyncEx
+
+/-- The recency walk accepts that trace, and the access orders seen in its quiescent snapshots
+are what the rule says: `[1,2,3]`, hit on 1 → `[2,3,1]`, update of 2 → `[3,1,2]`, invalidation of
+3 → `[1,2]`, lookups that miss → `[1,2]`, insert of 4 (fits) → `[1,2,4]`, admission of the
+popular 7 (weight 2) evicting 1 and 2 → `[4,7]`, `invalidate_all` → `[]`. -/
+example :
+    Spec.recencyC12 .sync (Sync.trace cfg histR) = true ∧
+    Spec.oracleC12 .sync cfg.cap cfg.ttl cfg.tti cfg.weigh Gen.UNSYNC_EVICTION_BATCH_SIZE
+      (Sync.trace cfg histR) = true ∧
+    (Sync.trace cfg histR).filterMap (fun x => match x.2 with
+      | .snap sn => if Spec.quiescent sn then some (Spec.lruOrder sn) else none
+      | _ => none) = [[1, 2, 3], [2, 3, 1], [3, 1, 2], [1, 2], [1, 2], [1, 2, 4], [4, 7], []] := by
+  decide +kernel
+
+/-- `C12_sync_hit_order` applied to a reachable state (hypotheses discharged). -/
+example :
+    Spec.lruOrder (Sync.snapshot cfg (syncRun cfg (Sync.get cfg full 1).1)) =
+      Spec.expectedOrder (Sync.snapshot cfg full)
+        (Sync.snapshot cfg (syncRun cfg (Sync.get cfg full 1).1)) [1] :=
+  C12_sync_hit_order nq_cfg small_cfg (C12_sync_reachable cfg nq_cfg small_cfg fill)
+    (by decide +kernel) 1 1 (by decide +kernel) (by decide +kernel)
+
+example : Spec.lruOrder (Sync.snapshot cfg (syncRun cfg (Sync.get cfg full 1).1)) = [2, 3, 1] := by
+  decide +kernel
+
+/-- The recency walk is not vacuous: it rejects a hand-made trace in which a hit does not move
+the key to the most recently used end … -/
+example : Spec.recencyC12 .sync
+    [(.snap, .snap (Sync.snapshot cfg full)), (.get 1, .val (some 1)), (.sync, .ok),
+     (.snap, .snap (Sync.snapshot cfg full))] = false := by
+  decide +kernel
+
+/-- … and one in which two residents swap places without having been used. -/
+example : Spec.recencyC12 .sync
+    [(.snap, .snap (Sync.snapshot cfg (Sync.stateAfter cfg {} [.ins 1 1, .sync, .ins 2 1, .sync]))),
+     (.sync, .ok),
+     (.snap, .snap (Sync.snapshot cfg (Sync.stateAfter cfg {} [.ins 2 1, .sync, .ins 1 1, .sync])))]
+    = false := by
+  decide +kernel
+
 end Props
 end MiniMoka
 
@@ -220,4 +365,11 @@ namespace MiniMoka.Props
 #print axioms C13_sync_admission
 #print axioms C13_sync_scan_resistance
 #print axioms C13_sync_oracle
+#print axioms C12_sync_reachable
+#print axioms C12_sync_recency_state
+#print axioms C12_sync_segment
+#print axioms C12_sync_hit_order
+#print axioms C12_sync_insert_order
+#print axioms C12_sync_recency
+#print axioms C12_sync_oracle
 end MiniMoka.Props
